@@ -43,6 +43,24 @@ def run(tier, workers=None):
         "histories": [[("put", "cal", "a.ics", "X")], [("put", "cal", "a.ics", "X"), ("put", "cal", "a.ics", "X2")]],
         "ops": [("put", "cal", "a.ics", "X2"), ("put", "cal", "a.ics", "Z"), ("delete", "cal", "a.ics")],
     }
-    return e1common.run_configs("C02", tier, configs(tier), depth_of, workers=workers, seeds=seeds, assumptions=ASSUME + [
+    def overlap(rep):
+        """E5: a write handled at every suspension point of a read; the read must not pair an ETag with another version's body."""
+        import multiprocessing as mp
+
+        from . import c05
+
+        jobs = [(r, w) for r in ("get-a", "multiget-a-b") for w in ("put-a-other", "delete-a", "put-b")]
+        with mp.get_context("fork").Pool(len(jobs)) as pool:
+            results = pool.map(c05._http_overlap_job, jobs, chunksize=1)
+        n = 0
+        for vios, stats in results:
+            n += stats["cases"]
+            for sig, e in vios.items():
+                if "etag-and-data-of-different-versions" in sig:
+                    rep.violation(sig.replace("C05|http-overlap", "C02|read-overlapping-write", 1), e["summary"], e["witness"])
+        return {"read_overlap_phase": {"pairs": len(jobs), "placements": n}}
+
+    return e1common.run_configs("C02", tier, configs(tier), depth_of, workers=workers, seeds=seeds, extra=overlap, assumptions=ASSUME + [
+        "overlap phase (E5): a write handled at every suspension point of GET / multiget in the single-process server",
         "fault phase: every single placement of an ENOSPC failure on a mutating file-system call of a replace / delete; afterwards all views must still agree and ETag <-> bytes must still be a bijection",
     ], post=post, faults=faults)
